@@ -15,6 +15,7 @@ fn spec_entry(s: &str) -> Option<schema::bitswap::wantlist::Entry> {
         cancel: spec::b01(c)?,
         want_type: spec::int(w)?,
         send_dont_have: spec::b01(d)?,
+        ..Default::default()
     })
 }
 
@@ -25,7 +26,11 @@ fn spec_wantlist(s: &str) -> Option<Option<schema::bitswap::Wantlist>> {
     }
     let f: Vec<&str> = s.split(':').collect();
     let [full, entries] = f.as_slice() else { return None };
-    Some(Some(schema::bitswap::Wantlist { entries: spec::list(entries, spec_entry)?, full: spec::b01(full)? }))
+    Some(Some(schema::bitswap::Wantlist {
+        entries: spec::list(entries, spec_entry)?,
+        full: spec::b01(full)?,
+        ..Default::default()
+    }))
 }
 
 /// `encpb bitswap <wantlist> <blocks> <payload> <presences> <pendingBytes>`: prost's encoder on a
@@ -39,14 +44,15 @@ pub(crate) fn encpb(t: &[&str]) -> Option<String> {
         payload: spec::list(payload, |s| {
             let f: Vec<&str> = s.split('/').collect();
             let [p, d] = f.as_slice() else { return None };
-            Some(schema::bitswap::Block { prefix: spec::b(p)?, data: spec::b(d)? })
+            Some(schema::bitswap::Block { prefix: spec::b(p)?, data: spec::b(d)?, ..Default::default() })
         })?,
         block_presences: spec::list(pres, |s| {
             let f: Vec<&str> = s.split('/').collect();
             let [c, t] = f.as_slice() else { return None };
-            Some(schema::bitswap::BlockPresence { cid: spec::b(c)?, r#type: spec::int(t)? })
+            Some(schema::bitswap::BlockPresence { cid: spec::b(c)?, r#type: spec::int(t)?, ..Default::default() })
         })?,
         pending_bytes: spec::int(pending)?,
+        ..Default::default()
     };
     let bytes = m.encode_to_vec();
     Some(format!("ok {} ==> {}", hexd(&bytes), pb(&bytes)))
